@@ -17,7 +17,7 @@ FUNCS = [("matrix_functions.py", f) for f in ("matrix_inverse_root", "_matrix_in
                                               "_matrix_inverse_root_higher_order", "matrix_eigenvalue_decomposition")]
 TRUSTED = [
     "dense kernels (eigh, matmul, matrix_power, norms, trace) are uninterpreted: their numerical accuracy is NOT covered by any obligation",
-    "iteration budgets enumerated (Newton max_iterations in {0,1,2}; higher-order {1,2} x order {2,3}); tolerance, epsilon, sizes symbolic; roots from a fixed list of positive rationals",
+    "iteration budgets: the while loops of both iterative solvers are under LOOP CONTRACTS (vlib/loops.py: pre / test / body / post segments compiled from the function's own statements on every run) — invariant established, preserved from ANY state, postcondition from ANY exit state, so the flag / residual-guard clauses hold for EVERY max_iterations (symbolic); additionally whole-function path enumeration for budgets {0,1,2} (Newton) and {1,2} x order {2,3} (higher-order). Extraction changes: `break` -> return; the pure try/finally wrapper of the higher-order solver is flattened and its finally suite (tf32 restore) is covered by the whole-function cases only. Termination is not proved. Higher-order `order` enumerated (2,3,5), roots from a fixed list of positive rationals; tolerance, epsilon, sizes symbolic",
     "accuracy clause (relative error <= c n u cond + tolerance) is BOUNDED ONLY: sizes 1..32 (quick) / 128 (thorough), graded and rank-deficient spectra, scales 1e-6..1e6, roots p/q, float32/float64, all four solver configurations, against a float64 spectral oracle",
 ]
 ASSUMPTIONS = ["A symmetric PSD, epsilon > 0, root > 0 for the accuracy clause"]
@@ -29,6 +29,7 @@ def cases(tier):
     cs = mf.dispatch_cases() + ["diag_eigen/diagonal"]
     cs += [f"newton/it{k}" for k in (0, 1, 2)]
     cs += [f"higher/it{k}/order{o}" for k in (1, 2) for o in (2, 3)]
+    cs += ["loop/newton", "loop/higher/order2", "loop/higher/order3", "loop/higher/order5"]
     return cs
 
 
@@ -37,6 +38,10 @@ def run_case(case, tier, seed):
         return mf.run_dispatch(case)
     if case.startswith("diag_eigen/"):
         return mf.run_diag_eigen(case)
+    if case == "loop/newton":
+        return mf.run_newton_loop(case)
+    if case.startswith("loop/higher"):
+        return mf.run_higher_loop(case)
     if case.startswith("newton/"):
         return mf.run_newton(case)
     return mf.run_higher(case)
